@@ -26,3 +26,11 @@ def pos(r=3, timeout=300, tier="both"):
 THREADS = dict(name="threads.decode2", src="rsm/threads.c", unwind=4, flags=["--arrays-uf-always"], units=["lib/lha_reader.c:do_decode,lha_reader_read"], timeout=600, mem_gb=6, replay="concrete",
                bounds="two threads, one reader each, one member of one byte each; all interleavings (CBMC's concurrency encoding)",
                stubs=["decoder: one identifying byte per reader, then end", "fwrite: records the first byte per output handle"])
+
+# not in any plan: CBMC 6.11 refuses this harness ("pointer handling for concurrency is unsound": the decoder's function and buffer pointers are
+# dereferenced in both threads); kept for reference, see DESIGN.md 9.4
+THREADS2 = dict(name="threads.check2", src="rsm/threads2.c", unwind=6, unwindset={"ref_crc16_step.0": 9, "lha_crc16_buf.0": 4, "verif_memcpy.0": 8, "check_progress_callback.0": 3},
+                defines=["free=verif_free_noop"], extra_srcs=["lib/crc16.c"], flags=["--arrays-uf-always"], replay="concrete",
+                units=["lib/lha_reader.c:lha_reader_check,open_decoder,do_decode,lha_reader_read", "lib/lha_decoder.c:lha_decoder_read,lha_decoder_get_length,lha_decoder_get_crc", "lib/crc16.c"], timeout=900, mem_gb=8,
+                bounds="two threads, one reader + decoder each, one member of two bytes each; all interleavings",
+                stubs=["method read(): two identifying bytes per decoder, then end", "lha_basic_reader_decode: hands each reader its own pre-built decoder object"])
